@@ -47,6 +47,12 @@ def _case(draw):
         if draw(st.integers(0, 5)) == 3:
             modes.append("unmatched-mode: keep")
         members.append({"prog": prog, "scan": scan, "id": f"m{i}", "modes": modes})
+    if draw(st.sampled_from([False, False, False, True])):
+        # a data record repeated verbatim (identical rows are legal CSV)
+        rows = [i for i, r in enumerate(table["records"]) if r][1:]
+        if rows:
+            src = draw(st.sampled_from(rows))
+            table["records"].insert(draw(st.integers(src + 1, len(table["records"]))), list(table["records"][src]))
     order = draw(st.permutations(list(range(n))))
     members = [members[i] for i in order]
     return {"table": table, "members": members, "if_all_agree": draw(st.booleans())}
@@ -87,6 +93,10 @@ def run_case(case, sb):
     inter = [i for i in file_ids if all(i in ids for ids in ref_ids)]
     problems = []
     texts = [member_text(m) for m in members]
+    byline_yield = {}
+    dups = len(set(tuple(r) for r in records if r)) != len([r for r in records if r])
+    if dups:
+        labels.append("duplicate-rows")
     for method in real.METHODS:
         sb_reset_archive(sb)
         cps = real.new_csvpaths()
@@ -117,7 +127,10 @@ def run_case(case, sb):
             if out["yielded"] != exp:
                 problems.append({"method": method, "yielded_expected": exp, "observed": out["yielded"]})
         if method in ("collect_by_line", "next_by_line"):
+            byline_yield[method] = out["yielded"]
             got = [ln[0] for ln in out["yielded"]]
+            if dups:
+                continue   # with identical rows the id-based union is not well defined; see the relation below
             if not case["if_all_agree"]:
                 if got != union:
                     problems.append({"method": method, "yielded_union_expected": union, "observed": got})
@@ -126,6 +139,8 @@ def run_case(case, sb):
                     problems.append({"method": method, "yielded_intersection_expected": inter, "observed": got})
         if len(problems) > 6:
             break
+    if len(byline_yield) == 2 and byline_yield["collect_by_line"] != byline_yield["next_by_line"]:
+        problems.append({"collect_by_line_yielded": byline_yield["collect_by_line"], "next_by_line_yielded": byline_yield["next_by_line"]})
     sets = [tuple(x) for x in ref_ids]
     nontrivial = len(members) >= 2 and len(set(sets)) >= 2 and sum(1 for s in sets if s) >= 2
     if case["if_all_agree"]:
